@@ -91,7 +91,11 @@ func (w *c13World) writePolicy(p *c13Policy) {
 		os.WriteFile(filepath.Join(d, "code", n+".info"), []byte(`{"model":"Linux"}`), 0644)
 	}
 	if p.code[1] != 0 {
-		os.WriteFile(filepath.Join(d, "code", "ipv6", "zzz"), []byte("ipv6 code of zzz\n"), 0644)
+		// whenever the policy has an ipv6 directory: "aaa" is dual-stack and
+		// "bbb6" exists with IPv6 code only
+		os.WriteFile(filepath.Join(d, "code", "ipv6", "aaa"), []byte("ipv6 code of aaa\n"), 0644)
+		os.WriteFile(filepath.Join(d, "code", "ipv6", "bbb6"), []byte("ipv6 code of bbb6\n"), 0644)
+		os.WriteFile(filepath.Join(d, "code", "ipv6", "bbb6.info"), []byte(`{"model":"Linux"}`), 0644)
 	}
 	os.Remove(filepath.Join(w.dir, "policies", "current"))
 	os.Symlink(fmt.Sprintf("p%d", p.n), filepath.Join(w.dir, "policies", "current"))
@@ -324,8 +328,12 @@ func (w *c13World) reference() (mustList, mustOmit bool) {
 }
 
 // c13OthersMissing: the never-approved devices must be in the output.
-func c13OthersMissing(out string) string {
-	for _, n := range []string{"aaa", "zzz"} {
+func c13OthersMissing(out string, withV6 bool) string {
+	names := []string{"aaa", "zzz"}
+	if withV6 {
+		names = append(names, "bbb6")
+	}
+	for _, n := range names {
 		found := false
 		for _, l := range strings.Split(out, "\n") {
 			if strings.TrimSpace(l) == n {
@@ -410,7 +418,7 @@ func c13Worker(ctx *core.Ctx) *core.Result {
 			if err != nil {
 				res.AddViolation(core.Violation{Property: "C13", Engine: "histx", Space: "bfs", Events: full,
 					Oracle: "exit-status", Signature: "missing-approve-failed", Message: out + err.Error()})
-			} else if miss := c13OthersMissing(out); miss != "" {
+			} else if miss := c13OthersMissing(out, w.current().code[1] != 0); miss != "" {
 				res.AddViolation(core.Violation{Property: "C13", Engine: "histx", Space: "bfs", Events: full,
 					Oracle: "must-list", Signature: "forgotten-other-device:" + miss,
 					Message: fmt.Sprintf("device %q was never approved but is not listed; output: %q; state: %s", miss, out, w.canon())})
